@@ -2,31 +2,13 @@
 From Coq Require Import NArith List Bool String.
 From Rodbus Require Import Base.Show Base.Outcome.
 From Rodbus Require Base.Frame Base.ClientTypes Model.ClientTask Spec.SystemClientSpec Model.SystemClient.
+From Rodbus Require Import Spec.SystemClientShow.
 Import ListNotations.
 Module F := Rodbus.Base.Frame.
 Module CT := Rodbus.Base.ClientTypes.
 Module T := Rodbus.Model.ClientTask.
 Module SS := Rodbus.Spec.SystemClientSpec.
 Local Open Scope string_scope.
-
-Definition show_response (v : CT.response) : string :=
-  match v with
-  | CT.RespBits l => show_list (fun x => show_N (fst x) ++ ":" ++ show_bool (snd x)) "," l
-  | CT.RespRegisters l => show_list (fun x => show_N (fst x) ++ ":" ++ show_N (snd x)) "," l
-  | CT.RespCoil i v => show_N i ++ ":" ++ show_bool v
-  | CT.RespRegister i v => show_N i ++ ":" ++ show_N v
-  | CT.RespRange s n => show_N s ++ "+" ++ show_N n
-  end.
-Definition show_verdict (v : SS.verdict) : string :=
-  match v with
-  | SS.VValue r => "Ok=" ++ show_response r
-  | SS.VException c => "Exception=" ++ show_N c
-  | SS.VBadReply => "BadResponse"
-  | SS.VBadFrame => "BadFrame"
-  | SS.VIo => "Io"
-  | SS.VPending => "Pending"
-  | SS.VCrash => "CRASH"
-  end.
 
 Record syscase := { y_req : CT.request; y_chunks : list (list N); y_fin : F.fin }.
 
